@@ -24,11 +24,14 @@ class Tr:
         self.m = module
         self.g = vars(module)
         self.sock = sockname
+        self.locals = set()
         import socket
+        import zlib
         from Pyro5 import errors
         self.classes = [(socket.timeout, "socketTimeout"), (OSError, "osError"),
                         (errors.TimeoutError, "pyroTimeout"), (errors.ConnectionClosedError, "connClosed"),
-                        (ValueError, "valueError")]
+                        (ValueError, "valueError"), (AssertionError, "assertionError"), (UnicodeDecodeError, "unicodeDecodeError"),
+                        (errors.ProtocolError, "protocolError"), (zlib.error, "zlibError")]
 
     # ---------------------------------------------------------------- names
     def resolve(self, node):
@@ -61,7 +64,13 @@ class Tr:
         if isinstance(e, ast.Name):
             if e.id in self.g and e.id == "USE_MSG_WAITALL":
                 return ".useWaitall"
+            if e.id not in self.locals and e.id in self.g and type(self.g[e.id]) is int:
+                return "(.lit (.int %d))" % self.g[e.id]          # a module-level integer constant
             return "(.var %s)" % q(e.id)
+        if isinstance(e, ast.Attribute) and isinstance(e.value, ast.Name) and e.value.id == "self":
+            return "(.var %s)" % q("self." + e.attr)
+        if isinstance(e, ast.Dict) and not e.keys:
+            return ".emptyDict"
         if isinstance(e, ast.Call):
             f = e.func
             if isinstance(f, ast.Name) and not e.keywords:
@@ -71,6 +80,9 @@ class Tr:
                     return "(.min %s %s)" % (self.expr(e.args[0]), self.expr(e.args[1]))
                 if f.id == "bytearray" and not e.args:
                     return ".emptyBytes"
+                if f.id == "memoryview" and len(e.args) == 1:
+                    return self.expr(e.args[0])                       # a view of the same bytes
+
                 if f.id == "hasattr" and len(e.args) == 2 and isinstance(e.args[0], ast.Name) and e.args[0].id == self.sock \
                         and isinstance(e.args[1], ast.Constant) and isinstance(e.args[1].value, str):
                     return "(.sockHasattr %s)" % q(e.args[1].value)
@@ -82,12 +94,17 @@ class Tr:
                     return ".delays"
                 if isinstance(obj, type) and issubclass(obj, BaseException):
                     return "(.mkExc %s)" % self.cls(f)
+            if isinstance(f, ast.Attribute) and ast.unparse(f) == "int.from_bytes" and len(e.args) == 2 and not e.keywords \
+                    and isinstance(e.args[1], ast.Constant) and e.args[1].value == "big":
+                return "(.fromBytesBig %s)" % self.expr(e.args[0])
             raise Untranslatable("call %s" % ast.unparse(e))
         if isinstance(e, ast.BinOp):
             if isinstance(e.op, ast.Sub):
                 return "(.sub %s %s)" % (self.expr(e.left), self.expr(e.right))
             if isinstance(e.op, ast.Add):
                 return "(.add %s %s)" % (self.expr(e.left), self.expr(e.right))
+            if isinstance(e.op, ast.BitAnd):
+                return "(.bitand %s %s)" % (self.expr(e.left), self.expr(e.right))
             raise Untranslatable("operator in %s" % ast.unparse(e))
         if isinstance(e, ast.UnaryOp) and isinstance(e.op, ast.Not):
             return "(.not %s)" % self.expr(e.operand)
@@ -114,6 +131,9 @@ class Tr:
         if isinstance(e, ast.Subscript) and isinstance(e.slice, ast.Slice) and e.slice.upper is None and e.slice.step is None \
                 and e.slice.lower is not None:
             return "(.sliceFrom %s %s)" % (self.expr(e.value), self.expr(e.slice.lower))
+        if isinstance(e, ast.Subscript) and isinstance(e.slice, ast.Slice) and e.slice.upper is not None and e.slice.step is None \
+                and e.slice.lower is not None:
+            return "(.slice %s %s %s)" % (self.expr(e.value), self.expr(e.slice.lower), self.expr(e.slice.upper))
         raise Untranslatable("expression %s" % ast.unparse(e))
 
     # ---------------------------------------------------------------- statements
@@ -139,6 +159,28 @@ class Tr:
                 if ast.unparse(v) == "time.sleep(next(delays))" and self.g.get("time") is __import__("time"):
                     return ".sleep"
             raise Untranslatable("statement %s" % ast.unparse(s))
+        if isinstance(s, ast.Assert) and s.msg is None:
+            return "(.assert_ %s)" % self.expr(s.test)
+        if isinstance(s, ast.AugAssign) and isinstance(s.op, ast.BitAnd) and isinstance(s.value, ast.UnaryOp) \
+                and isinstance(s.value.op, ast.Invert):
+            return "(.clearBits %s %s)" % (q(self.target(s.target)), self.expr(s.value.operand))
+        if isinstance(s, ast.Assign) and len(s.targets) == 1 and isinstance(s.targets[0], ast.Subscript) \
+                and not isinstance(s.targets[0].slice, ast.Slice):
+            t = s.targets[0]
+            return "(.dictSetItem %s %s %s)" % (q(self.target(t.value)), self.expr(t.slice), self.expr(s.value))
+        if isinstance(s, ast.Assign) and len(s.targets) == 1 and isinstance(s.targets[0], (ast.Name, ast.Attribute)) \
+                and not (isinstance(s.targets[0], ast.Attribute) and s.targets[0].attr == "partialData"):
+            t, v = self.target(s.targets[0]), s.value
+            # x = bytes(<e>).decode("ascii")
+            if isinstance(v, ast.Call) and isinstance(v.func, ast.Attribute) and v.func.attr == "decode" and len(v.args) == 1 \
+                    and isinstance(v.args[0], ast.Constant) and v.args[0].value == "ascii" and isinstance(v.func.value, ast.Call) \
+                    and isinstance(v.func.value.func, ast.Name) and v.func.value.func.id == "bytes" and len(v.func.value.args) == 1:
+                return "(.decodeAscii %s %s)" % (q(t), self.expr(v.func.value.args[0]))
+            if isinstance(v, ast.Call) and ast.unparse(v.func) == "zlib.decompress" and len(v.args) == 1 \
+                    and self.g.get("zlib") is __import__("zlib"):
+                return "(.decompress %s %s)" % (q(t), self.expr(v.args[0]))
+            if isinstance(s.targets[0], ast.Attribute):
+                return "(.assign %s %s)" % (q(t), self.expr(v))
         if isinstance(s, ast.Assign) and len(s.targets) == 1:
             t, v = s.targets[0], s.value
             if isinstance(t, ast.Name):
@@ -154,8 +196,8 @@ class Tr:
             if isinstance(t, ast.Attribute) and t.attr == "partialData" and isinstance(t.value, ast.Name):
                 return "(.setPartial %s %s)" % (q(t.value.id), self.expr(v))
             raise Untranslatable("assignment %s" % ast.unparse(s))
-        if isinstance(s, ast.AugAssign) and isinstance(s.op, ast.Add) and isinstance(s.target, ast.Name):
-            return "(.augAdd %s %s)" % (q(s.target.id), self.expr(s.value))
+        if isinstance(s, ast.AugAssign) and isinstance(s.op, ast.Add) and isinstance(s.target, (ast.Name, ast.Attribute)):
+            return "(.augAdd %s %s)" % (q(self.target(s.target)), self.expr(s.value))
         if isinstance(s, ast.If):
             return "(.ite %s %s %s)" % (self.expr(s.test), self.block(s.body), self.block(s.orelse))
         if isinstance(s, ast.While) and not s.orelse:
@@ -172,8 +214,11 @@ class Tr:
             return "(.ret %s)" % (self.expr(s.value) if s.value is not None else "(.lit .none)")
         if isinstance(s, ast.Raise) and s.exc is not None and s.cause is None:
             x = s.exc
-            if isinstance(x, ast.Call) and isinstance(x.func, ast.Name):
-                obj = self.g.get(x.func.id)
+            if isinstance(x, ast.Call) and isinstance(x.func, (ast.Name, ast.Attribute)):
+                try:
+                    obj = self.resolve(x.func)
+                except Untranslatable:
+                    obj = None
                 if isinstance(obj, type) and issubclass(obj, BaseException):
                     return "(.raise_ (.mkExc %s))" % self.cls(x.func)     # message text dropped
             return "(.raise_ %s)" % self.expr(x)
@@ -185,10 +230,18 @@ class Tr:
             return ".skip"
         raise Untranslatable("statement %s" % ast.unparse(s).splitlines()[0])
 
-    def function(self, name, params):
-        fn = getattr(self.m, name)
+    def target(self, t):
+        if isinstance(t, ast.Name):
+            return t.id
+        if isinstance(t, ast.Attribute) and isinstance(t.value, ast.Name) and t.value.id == "self":
+            return "self." + t.attr
+        raise Untranslatable("assignment target %s" % ast.unparse(t))
+
+    def function(self, name, params, owner=None):
+        fn = getattr(owner or self.m, name)
         tree = ast.parse(textwrap.dedent(inspect.getsource(fn)))
         fd = tree.body[0]
+        self.locals = {a.arg for a in fd.args.args} | {n.id for n in ast.walk(fd) if isinstance(n, ast.Name) and isinstance(n.ctx, ast.Store)}
         got = [a.arg for a in fd.args.args]
         if got != params or fd.args.vararg or fd.args.kwarg or fd.args.kwonlyargs or fd.decorator_list:
             raise Untranslatable("%s%r: signature changed (expected %r)" % (name, got, params))
